@@ -194,6 +194,8 @@ func (m *Monitor) handleConnection(conn net.Conn) {
 				log.Lvl2("Monitor: too many errors from", conn.RemoteAddr().String(), ": Abort.")
 				break
 			}
+			// do not record the partially decoded measure
+			continue
 		}
 
 		log.Lvlf3("Monitor: received a Measure from %s: %+v", conn.RemoteAddr().String(), measure)
